@@ -18,8 +18,11 @@ def _lr(k, n, s):
     return bytes([0x80 + k, s] + [16 * (k + 1) + i for i in range(n)])[:n]
 
 
-def _write(cap, rec, fil, chk, tif, lrs):
-    prt = PhysRec.PhysRecTail(hasRecNum=rec, fileNum=(7 if fil else None), hasCheckSum=chk)
+FILE_NUMBERS = [7, 0, 65535]        # an ordinary file number, the legal minimum and the legal maximum
+
+
+def _write(cap, rec, fil, chk, tif, lrs, fnum=0):
+    prt = PhysRec.PhysRecTail(hasRecNum=rec, fileNum=(FILE_NUMBERS[fnum] if fil else None), hasCheckSum=chk)
     f = SymWFile()
     w = File.FileWrite(f, 'w', False, tif, 4 + prt.prtLen + cap, prt)
     pos = [w.write(lr) for lr in lrs]
@@ -27,22 +30,24 @@ def _write(cap, rec, fil, chk, tif, lrs):
     return f.getvalue(), pos
 
 
-def write_then_read_q(cap: int, rec: bool, fil: bool, chk: bool, tif: bool, n0: int, n1: int) -> bool:
+def write_then_read_q(cap: int, rec: bool, fil: bool, chk: bool, tif: bool, n0: int, n1: int, fnum: int = 0) -> bool:
     """
     pre: 1 <= cap <= 3 and 1 <= n0 <= 5 and 1 <= n1 <= 3
     pre: PART < 0 or (8 if rec else 0) + (4 if fil else 0) + (2 if chk else 0) + (1 if tif else 0) == PART
+    pre: 0 <= fnum <= 2 and (fil or fnum == 0)
     post: _
     """
-    return _write_then_read(cap, rec, fil, chk, tif, n0, n1, 0x5a)
+    return _write_then_read(cap, rec, fil, chk, tif, n0, n1, 0x5a, fnum)
 
 
-def write_then_read(cap: int, rec: bool, fil: bool, chk: bool, tif: bool, n0: int, n1: int) -> bool:
+def write_then_read(cap: int, rec: bool, fil: bool, chk: bool, tif: bool, n0: int, n1: int, fnum: int = 0) -> bool:
     """
     pre: 1 <= cap <= 4 and 1 <= n0 <= 7 and 1 <= n1 <= 5
     pre: PART < 0 or (8 if rec else 0) + (4 if fil else 0) + (2 if chk else 0) + (1 if tif else 0) == PART
+    pre: 0 <= fnum <= 2 and (fil or fnum == 0)
     post: _
     """
-    return _write_then_read(cap, rec, fil, chk, tif, n0, n1, 0x5a)
+    return _write_then_read(cap, rec, fil, chk, tif, n0, n1, 0x5a, fnum)
 
 
 def payload_bytes(tif: bool, s0: int, s1: int, s2: int) -> bool:
@@ -57,16 +62,17 @@ def payload_bytes(tif: bool, s0: int, s1: int, s2: int) -> bool:
     return r.readLrBytes() == lrs[0] and r.readLrBytes() == lrs[1] and REF.decode(data, tif) == [(pos[0], lrs[0]), (pos[1], lrs[1])]
 
 
-def _write_then_read(cap, rec, fil, chk, tif, n0, n1, s):
+def _write_then_read(cap, rec, fil, chk, tif, n0, n1, s, fnum=0):
     cap, n0, n1 = mark.pick(cap, 1, 4), mark.pick(n0, 1, 7), mark.pick(n1, 1, 5)
     rec, fil, chk, tif = mark.pickb(rec), mark.pickb(fil), mark.pickb(chk), mark.pickb(tif)
+    fnum = mark.pick(fnum, 0, 2) if fil else 0
     with mark.untraced():
-        return _write_then_read_c(cap, rec, fil, chk, tif, n0, n1, s)
+        return _write_then_read_c(cap, rec, fil, chk, tif, n0, n1, s, fnum)
 
 
-def _write_then_read_c(cap, rec, fil, chk, tif, n0, n1, s):
+def _write_then_read_c(cap, rec, fil, chk, tif, n0, n1, s, fnum=0):
     lrs = [_lr(0, n0, s), _lr(1, n1, s)]
-    data, pos = _write(cap, rec, fil, chk, tif, lrs)
+    data, pos = _write(cap, rec, fil, chk, tif, lrs, fnum)
     mark.hit()
     # layout against the LIS-79 reference; write() positions = logical record starts
     try:
